@@ -14,7 +14,9 @@ deriving Repr, BEq, DecidableEq
 structure KV where
   v : List Rat
   deg : Nat
-deriving Repr, BEq, DecidableEq
+deriving Repr, DecidableEq
+
+instance : BEq KV := ⟨fun a b => decide (a = b)⟩
 
 namespace KV
 
